@@ -2121,7 +2121,8 @@ fn dump(ops: Ops, env: &mut Uiua, inverse: bool) -> UiuaResult {
     let mut items = Vec::new();
     for item in unprocessed {
         env.push(item);
-        match env.exec(f.clone()) {
+        // A failing function must not leave anything on either stack
+        match env.exec_clean_stack(f.clone()) {
             Ok(()) => items.push(env.pop("dump's function's processed result")?),
             Err(e) => items.push(e.value()),
         }
